@@ -36,6 +36,11 @@ def main():
         for i in range(k):
             pad.append(object() if r.random() < 0.5 else [None] * r.randint(1, 40))
 
+    # ---- the clock seam: every clock function of the time module answers from a simulated clock owned by the trial
+    clock = trial.get("clock", "natural")
+    if clock != "natural":
+        _patch_clock(clock)
+
     # ---- directory-entry order perturbation
     mode = trial.get("dirent", "natural")
     if mode != "natural":
@@ -136,6 +141,34 @@ def digest_workspace(ws, mask):
                         decoded = raw
             out[rel] = [raw, decoded, len(data), rows]
     return out
+
+
+def _patch_clock(mode):
+    """simulated time for the analysing process.  mode: "frozen" (time stands still), "jump:<seconds>" (every look at any
+    clock advances it by that much: a machine so slow, or a project so big, that hours pass between two steps),
+    "step:<seconds>" (same, small steps).  Wall clock and monotonic clock share one simulated time line that starts at
+    a fixed epoch, so nothing of the real time leaks into the run."""
+    import time as _time
+    step = 0.0
+    if ":" in mode:
+        step = float(mode.split(":", 1)[1])
+    state = {"now": 0.0, "calls": 0}
+    EPOCH = 1_700_000_000.0
+
+    def tick():
+        state["calls"] += 1
+        state["now"] += step
+        return state["now"]
+
+    _time.time = lambda: EPOCH + tick()
+    _time.monotonic = lambda: 1000.0 + tick()
+    _time.perf_counter = lambda: 1000.0 + tick()
+    _time.process_time = lambda: 1.0 + tick()
+    _time.time_ns = lambda: int((EPOCH + tick()) * 1e9)
+    _time.monotonic_ns = lambda: int((1000.0 + tick()) * 1e9)
+    _time.perf_counter_ns = lambda: int((1000.0 + tick()) * 1e9)
+    _time.sleep = lambda seconds=0: state.__setitem__("now", state["now"] + max(0.0, float(seconds or 0)))      # sleeping costs no real time
+    _patch_clock.state = state
 
 
 def _patch_dirent(mode):
